@@ -32,9 +32,14 @@ class SVGP(gpytorch.models.ApproximateGP):
         g = torch.Generator().manual_seed(seed)
         bs = torch.Size([2]) if mt else torch.Size([])
         z = torch.rand(*bs, 4, 1, generator=g, dtype=D) * 2 - 1
+        nz = 8 if strat == "grid" else 4
         vd = dict(chol=V.CholeskyVariationalDistribution, mf=V.MeanFieldVariationalDistribution, delta=V.DeltaVariationalDistribution,
-                  nat=V.NaturalVariationalDistribution, trilnat=V.TrilNaturalVariationalDistribution)[dist](4, batch_shape=bs)
-        vs = dict(std=V.VariationalStrategy, unw=V.UnwhitenedVariationalStrategy)[strat](self, z, vd, learn_inducing_locations=True)
+                  nat=V.NaturalVariationalDistribution, trilnat=V.TrilNaturalVariationalDistribution)[dist](nz, batch_shape=bs)
+        if strat == "grid":
+            # inducing points on a grid: the grid (and the derived inducing points) are buffers of the strategy
+            vs = V.GridInterpolationVariationalStrategy(self, grid_size=nz, grid_bounds=[(-1.5, 1.5)], variational_distribution=vd)
+        else:
+            vs = dict(std=V.VariationalStrategy, unw=V.UnwhitenedVariationalStrategy)[strat](self, z, vd, learn_inducing_locations=True)
         if mt == "lmc":
             vs = V.LMCVariationalStrategy(vs, num_tasks=3, num_latents=2, latent_dim=-1)
         elif mt == "indep":
